@@ -138,6 +138,11 @@ func churn() {
 func collect() {
 	runtime.GC()
 	runtime.GC()
+	// let finalizers (if the library sets any) run before memory is churned
+	for i := 0; i < 4; i++ {
+		runtime.Gosched()
+	}
+	time.Sleep(200 * time.Microsecond)
 	churn()
 }
 
@@ -298,10 +303,25 @@ func runType(c *fw.Ctx, idx int, tc tcase, bound int) {
 	}
 
 	// ---- decode direction: GC placements during ReadFile
+	// variants: (0) the application keeps the banks; (1) it keeps the records but drops the banks without
+	// closing them; (2) a previous read whose banks were closed (and one collection) precedes the read, so
+	// banks come recycled from the pool
 	var execs int64
-	stD := explore.Run(bound, 0, func(ch *explore.Chooser) {
+	var stD explore.Stats
+	for variant := 0; variant < 3; variant++ {
+	variant := variant
+	stV := explore.Run(bound, 0, func(ch *explore.Chooser) {
 		execs++
-		desc := fmt.Sprintf("decode %s with collections at %s", tc.name, placement(ch))
+		desc := fmt.Sprintf("decode %s (variant %s) with collections at %s", tc.name, [...]string{"banks kept", "banks dropped unclosed", "banks recycled from the pool"}[variant], placement(ch))
+		if variant == 2 {
+			hook = nil
+			avro.ReadFile(&filedrv.Reader{Data: cleanFile}, reflect.New(outer).Elem().Interface(), func(val unsafe.Pointer, rb *avro.ResourceBank) error {
+				rb.Close()
+				return nil
+			})
+			runtime.GC() // one cycle: pooled banks survive in the pool's victim cache
+			churn()
+		}
 		c.Begin(locus+"|decode", desc)
 		hook = func(label string) {
 			if ch.Choose("gc@"+label, 2) == 1 {
@@ -317,12 +337,14 @@ func runType(c *fw.Ctx, idx int, tc tcase, bound int) {
 				sh := reflect.New(outer).Elem()
 				sh.Set(reflect.NewAt(outer, val).Elem()) // what an application retains: a shallow copy
 				kept = append(kept, sh)
-				banks = append(banks, rb)
+				if variant != 1 {
+					banks = append(banks, rb)
+				}
 				return nil
 			})
 		})
 		hook = nil
-		det := map[string]interface{}{"type": tc.name, "gc_placement": placement(ch), "direction": "decode"}
+		det := map[string]interface{}{"type": tc.name, "gc_placement": placement(ch), "direction": "decode", "variant": variant}
 		if pan != nil {
 			c.Violation("panic:"+fw.PanicClass(pan)+"@"+site+"|"+locus+"|decode", fmt.Sprintf("panic %v — %s", pan, desc), det)
 			return
@@ -343,6 +365,11 @@ func runType(c *fw.Ctx, idx int, tc tcase, bound int) {
 		}
 		runtime.KeepAlive(banks)
 	}, nil)
+	stD.ChoicePoints += stV.ChoicePoints
+	if stV.MaxDepth > stD.MaxDepth {
+		stD.MaxDepth = stV.MaxDepth
+	}
+	}
 
 	// ---- encode direction: GC placements during Write (incl. inside map iteration)
 	stE := explore.Run(bound, 0, func(ch *explore.Chooser) {
@@ -473,7 +500,7 @@ func init() {
 			if tier == "thorough" {
 				b = 2
 			}
-			return fmt.Sprintf("workers run with GOGC=off GODEBUG=clobberfree=1,invalidptr=1, so the only collections are the ones the explorer injects and a freed object is overwritten at once; an instrumented leaf type GCProbe (registered custom codec) provides a choice point inside every Read (before/middle/after), New, Omit and Write, plus callback entry and before/after each Encode; the type universe puts probes inside and after every composite: all type expressions of depth<=2 (3 for maps and pointers in thorough) over leaves {GCProbe,string,[]byte,int64,*int64,*GCProbe,time.Time,null.String} and wrappers {*τ,[]τ,map[string]τ,struct{X τ;P GCProbe}}, each as struct{F τ; Tail GCProbe; G τ omitempty}; for every type ALL placements of at most %d injected collection(s) (each = 2×runtime.GC + allocation of garbage in 16 size classes) during ReadFile and during encoding are enumerated, and one collection is always run after decoding and again after the first comparison; oracle: every retained (shallow-copied) record equals the value written after the last collection, encoded data equals the collection-free run as a datum, the worker does not die; distinct_nontrivial = (type, placement) executions", b)
+			return fmt.Sprintf("workers run with GOGC=off GODEBUG=clobberfree=1,invalidptr=1, so the only collections are the ones the explorer injects and a freed object is overwritten at once; an instrumented leaf type GCProbe (registered custom codec) provides a choice point inside every Read (before/middle/after), New, Omit and Write, plus callback entry and before/after each Encode; the type universe puts probes inside and after every composite: all type expressions of depth<=2 (3 for maps and pointers in thorough) over leaves {GCProbe,string,[]byte,int64,*int64,*GCProbe,time.Time,null.String} and wrappers {*τ,[]τ,map[string]τ,struct{X τ;P GCProbe}}, each as struct{F τ; Tail GCProbe; G τ omitempty}; the decode direction runs in three variants (banks kept by the application; records kept but banks dropped unclosed; banks recycled from the pool after an earlier read whose banks were closed, one collection in between); for every type and variant ALL placements of at most %d injected collection(s) (each = 2×runtime.GC + allocation of garbage in 16 size classes) during ReadFile and during encoding are enumerated, and one collection is always run after decoding and again after the first comparison; oracle: every retained (shallow-copied) record equals the value written after the last collection, encoded data equals the collection-free run as a datum, the worker does not die; distinct_nontrivial = (type, placement) executions", b)
 		},
 		Assumptions: []string{
 			"collections land only at interception points, not between arbitrary machine instructions (e.g. not between an internal allocation and the store that publishes it when no leaf codec call intervenes); this window is unexplored",
